@@ -9,7 +9,7 @@ Theorem run_warn_pure v nc fs0 w1 w2 : artefacts (run (with_warn v w1) nc fs0) =
 Proof.
   unfold run. pose proof (front_warn_pure v w1 w2) as H. unfold output_of in H.
   destruct (front (with_warn v w1)) as [o1|e1], (front (with_warn v w2)) as [o2|e2]; try discriminate; cbn [bind].
-  - cbn in H. inversion H as [[HA HF]]. destruct o1 as [a1 f1 l1 m1], o2 as [a2 f2 l2 m2]. cbn [o_api o_flat o_log o_amb] in *. subst a2 f2.
+  - cbn in H. inversion H as [[HA HF]]. destruct o1 as [a1 f1 l1 m1], o2 as [a2 f2 l2 m2]. cbn [o_api o_flatd o_log o_amb] in *. subst a2 f2.
     destruct (back_run a1 nc fs0) as [[[data s] fs]|]; cbn [bind artefacts]; reflexivity.
   - cbn. congruence.
 Qed.
